@@ -8,6 +8,8 @@ PROPS = {
                        explanation="four theorems (justified, silenced key, release never presses, trigger consumed) from Inv; 'in effect' is the specification state's active list; extracted checkers K_C02_* run on the real outputs"),
     "C03": mapper_prop(["EVENTS"], ["C03"],
                        explanation="C03_last_listed_satisfied_mapping_fires: for every non-absorbing accepted layout and every history the fired mapping is the declarative last-listed satisfied one over the PHYSICALLY held keys (inp = phys proved), with the stated effects; extracted checkers K_C03_fire / K_C03_pass run on the real outputs"),
+    "C04": mapper_prop(["EVENTS"], ["C04"],
+                       explanation="C04_no_stale_modifiers: for every non-absorbing accepted layout and every history, when the last-listed satisfied mapping is key-producing the step presses its final output key, and in the held set at the instant of that press every output key of the mapping is down and every other modifier that is down is physically held outside the trigger or output by a held modifier-remapping (proved from Inv: release_action_mappings drops exactly the modifiers of earlier key-producing mappings); extracted checkers K_C04_missing / K_C04_stale run on the real outputs; reading 9.1: key-producing mappings"),
     "C05": mapper_prop(["EVENTS"], ["C05"],
                        explanation="six theorems for every accepted layout and every history: events of a foreign key (pressed only by its own acted press, released only by its own release, release-all or - non-modifier - a no-repeat firing; pressed exactly once as the last event; up after its release), empty layout = echo of the input, release scope (only the key itself and outputs of mappings triggered by it, never an output of a mapping remaining in effect), in-effect outputs stay (non-absorbing layouts); extracted checkers K_C05_foreign/empty/scope/stay run on the real outputs"),
     "C06": mapper_prop(["FULL"], ["C06"],
